@@ -501,7 +501,7 @@ end C16
 `add_linear_inequality_constraint`s, `max_pow` of `binary_encoding`), the remainder rule, the coefficient and guards of the
 extra `cross_zero` variable, the method dispatch and the parameter defaults into `Generated.SlackRule`; the theorems below are
 stated over these constants.  With the float pipeline (`int(np.floor(np.log2(S)))`, `math.floor(math.log2(ub))`) the count is
-one too large for `S` just below `2^k`, `k ≥ 50` (genuine defect D65, repaired: `S.bit_length() - 1`). -/
+one too large for `S` just below `2^k`, `k ≥ 50` (genuine defect D65g, repaired: `S.bit_length() - 1`). -/
 
 namespace C16
 open Pen Generated.SlackRule
@@ -526,7 +526,7 @@ theorem slack_count_characterised (n S : Nat) :
     (S + 1 < 2^n → Reps (slackCoeffsBy n S) (S + 1)) :=
   ⟨fun h1 h2 t => coeffs_cover_exact n S h1 h2 t, fun h t => coeffs_cover_pow_pred n S h t, coeffs_overshoot n S⟩
 
-/-- D65, the concrete instance: `S = 2^50 − 2`, for which the float pipeline returns 50 (`Nat.log2 S = 49`): the slack
+/-- D65g, the concrete instance: `S = 2^50 − 2`, for which the float pipeline returns 50 (`Nat.log2 S = 49`): the slack
     reaches `S + 1`, and `binary_encoding(v, 2^50 − 2)` gets a most significant coefficient `≤ 0` (it is `−1`) -/
 theorem float_log2_overshoot_witness :
     Nat.log2 (2^50 - 2) = 49 ∧ Reps (slackCoeffsBy 50 (2^50 - 2)) (2^50 - 2 + 1) ∧
@@ -546,7 +546,7 @@ theorem cross_zero_bqm_as_coded (label : String) (ubc lbc : Int) (S : Nat) :
   ⟨bqmSlack_cross label ubc lbc S, fun a t hS => cross_zero_values S hS a t⟩
 
 /-- the documented meaning of `cross_zero` ("adds zero to the domain of constraint") is NOT what the BQM method does
-    (open finding D66): `5 ≤ a + 2b + 3c + 4d ≤ 8` with `cross_zero=True` returns the slack coefficients `[1, 2, 5]`
+    (open finding D66g): `5 ≤ a + 2b + 3c + 4d ≤ 8` with `cross_zero=True` returns the slack coefficients `[1, 2, 5]`
     and the sum `2` (neither `0` nor in `5..8`) is absorbed by the slack total `6 = 1 + 5` -/
 theorem cross_zero_accepts_between_witness :
     ineqPlan [1, 2, 3, 4] 0 5 8 = .slack 8 5 3 ∧ (bqmSlack "c" 8 5 3 true).map (·.2) = [1, 2, 5] ∧
